@@ -52,7 +52,7 @@ import (
 func init() {
 	core.Register(&core.Monitor{
 		ID:            "C28",
-		Rule:          "era (Shelley..Dijkstra) x scenario (14 fixed + PRNG (quick 200, thorough 3000 per era): 1-3 inputs owned by keys behind enterprise / base / pointer addresses, a native script or Byron addresses with empty / network-magic attributes; Alonzo+: 0-2 collateral inputs and 0-2 required signers) x witness manipulation (complete; per owner / collateral owner / required signer: dropped with an unrelated valid witness kept, replaced by another key's valid witness, signature bit flipped, signature over another tx id, duplicated, duplicated with a corrupted copy; unrelated witness corrupted; bootstrap: dropped, other key, wrong chain code, wrong attributes, bit flipped, other tx id); a case is non-trivial when the transaction decodes; distinct by transaction id + witness bytes",
+		Rule:          "era (Shelley..Dijkstra) x scenario (14 fixed + PRNG (quick 200, thorough 3000 per era): 1-3 inputs owned by keys behind enterprise / base / pointer addresses, a native script or Byron addresses with empty / network-magic attributes; Alonzo+: 0-2 collateral inputs and 0-2 required signers) x witness manipulation (complete; per owner / collateral owner / required signer: dropped with an unrelated valid witness kept, replaced by another key's valid witness, signature bit flipped, witness replayed from a previously accepted transaction (same / other era), duplicated, duplicated with a corrupted copy; unrelated witness corrupted; bootstrap: dropped, other key, wrong chain code, wrong attributes, bit flipped, other tx id); x presentation (body / witness-set map key order ascending, descending, shuffled, e.g. bootstrap before vkey witnesses; witness arrays reversed: all six for the fixed scenarios, PRNG otherwise); every reject case is validated right after its accepted sibling / donor, every rule call is repeated on the same objects (lg.Checked); a case is non-trivial when the transaction decodes; distinct by transaction id + witness bytes",
 		MinNontrivial: 5000,
 		Assumptions: []string{
 			"crypto/ed25519, crypto/sha3 and golang.org/x/crypto/blake2b are correct",
@@ -230,12 +230,36 @@ type tcase struct {
 	// donorEra: era of the previously validated transaction a replayed
 	// witness ("other-tx-id") is taken from; nil = the case's own era
 	donorEra *lg.Era
+	// pres: presentation of the same transaction (the ledger prescribes no
+	// map key order and no witness order); see presName
+	pres int
+}
+
+var presName = [...]string{"canonical", "witness-map-descending", "witness-map-shuffled", "body-and-witness-map-descending", "witness-arrays-reversed", "body-shuffled-witness-map-descending-arrays-reversed"}
+
+func (t tcase) orders() (body, wits lg.KeyOrder, reverse bool) {
+	switch t.pres {
+	case 1:
+		return lg.Ascending(), lg.Descending(), false
+	case 2:
+		return lg.Ascending(), lg.Shuffled(uint64(t.bit) + 7), false
+	case 3:
+		return lg.Descending(), lg.Descending(), false
+	case 4:
+		return lg.Ascending(), lg.Ascending(), true
+	case 5:
+		return lg.Shuffled(uint64(t.bit) + 11), lg.Descending(), true
+	}
+	return lg.Ascending(), lg.Ascending(), false
 }
 
 func (t tcase) String() string {
 	s := fmt.Sprintf("era=%s scenario=%s manipulation=%s", t.era, t.sc.name, t.m.name)
 	if t.tgt != nil {
 		s += fmt.Sprintf(" target=%s:%s(%s)", t.tgt.role, t.tgt.o.name, ownerKindName[t.tgt.o.kind])
+	}
+	if t.pres != 0 {
+		s += " presentation=" + presName[t.pres]
 	}
 	if t.m.name == "other-tx-id" {
 		de := t.era
@@ -278,6 +302,8 @@ func build(t tcase, otherID *lg.Hash32) (*built, error) {
 	w := lg.NewWorld(e)
 	st := w.State
 	spec := &lg.TxSpec{Era: e, Fee: 400_000}
+	bodyOrder, witOrder, reverse := t.orders()
+	spec.BodyOrder, spec.WitnessOrder = bodyOrder, witOrder
 	if t.fee != 0 {
 		spec.Fee = t.fee
 	}
@@ -428,6 +454,13 @@ func build(t tcase, otherID *lg.Hash32) (*built, error) {
 	for _, v := range b.boots {
 		spec.BootstrapWitnesses = append(spec.BootstrapWitnesses, v.node())
 	}
+	if reverse {
+		for _, l := range [][]*cborx.Node{spec.ExtraVkeyWitnesses, spec.BootstrapWitnesses} {
+			for i, j := 0, len(l)-1; i < j; i, j = i+1, j-1 {
+				l[i], l[j] = l[j], l[i]
+			}
+		}
+	}
 	b.tx = spec.Build()
 	if b.tx.TxId != txid {
 		return nil, fmt.Errorf("generator: tx id changed between signing and building")
@@ -571,6 +604,26 @@ func cases(c *core.Ctx) []tcase {
 			}
 		}
 	}
+	// presentation dimension: every case gets a PRNG presentation; the fixed
+	// scenarios run the decisive manipulations in every presentation
+	rp := c.Rand("presentation")
+	base := len(out)
+	for i := 0; i < base; i++ {
+		t := out[i]
+		fixed := !strings.HasPrefix(t.sc.name, "random-")
+		decisive := t.m.name == "complete" || t.m.name == "dropped" || t.m.name == "other-tx-id" || t.m.name == "bit-flipped"
+		if fixed && decisive && t.donorEra == nil {
+			for p := 1; p < len(presName); p++ {
+				x := t
+				x.pres = p
+				out = append(out, x)
+			}
+			continue
+		}
+		if rp.Chance(2, 3) {
+			out[i].pres = 1 + rp.Intn(len(presName)-1)
+		}
+	}
 	for i := range out {
 		out[i].index = i
 	}
@@ -628,6 +681,7 @@ type sigRule struct {
 }
 
 func run(c *core.Ctx) {
+	lg.EnableChecks(c)
 	co := &collector{m: map[string]*finding{}}
 	rules := map[lg.Era][]sigRule{}
 	for _, e := range lg.AllEras {
@@ -656,7 +710,9 @@ func run(c *core.Ctx) {
 			epp := lg.DefaultParams(e).For(e)
 			for _, r := range rules[e] {
 				var rerr error
-				if pn, val, _ := core.Safely(func() { rerr = r.f(tx, 1000, st, epp) }); pn {
+				if pn, val, _ := core.Safely(func() {
+					rerr = lg.Checked(e, tx, st, func() error { return r.f(tx, 1000, st, epp) })
+				}); pn {
 					rerr = fmt.Errorf("panic: %v", val)
 				}
 				res[r.name] = rerr
@@ -701,6 +757,7 @@ func run(c *core.Ctx) {
 		witBytes := b.tx.Node.Items[1].Slice(b.tx.Cbor)
 		c.Distinct(en, core.HexFull(b.tx.TxId[:]), core.HexFull(witBytes))
 		c.Count("manipulation:"+t.m.name, 1)
+		c.Count("presentation:"+presName[t.pres], 1)
 		v := reference(t, b)
 		history := map[string]any{}
 		// verdict before the history exists
